@@ -17,7 +17,7 @@ Each illegal declaration is rejected by a guard that *dominates* the state write
 """
 import ast
 
-from rsx.flow import clauses, clauses_of, _add_clauses
+from rsx.flow import holds, clauses, clauses_of, _add_clauses
 from .common import (AnalysisError, Finding, RuleResult, MustFlow, ntext, walk_no_nested,
                      body_stmts, is_self_attr, single_defs, expand_locals)
 
@@ -53,7 +53,15 @@ class _Guards(MustFlow):
 
 def has_guard(state, pred):
     """some known clause satisfies pred(clause); clause = frozenset of (atom text, polarity)"""
+    if getattr(pred, 'on_state', False):
+        return pred(state)
     return any(pred(c) for c in clauses_of(state))
+
+
+def on_state(fn):
+    """guard given as a predicate on the whole state (several facts together)"""
+    fn.on_state = True
+    return fn
 
 
 def unit(pred_lit):
@@ -105,7 +113,7 @@ def run(repo):
            ('dependency already declared (self.depend[..].any())', any_guard('self.depend['))])
     check(repo, res, 'lp.DecVarSub.affadapt', 'the store into self.rand_adapt', store_into('rand_adapt'),
           [('integer decision (self.vtype in [B, I])',
-            unit(lambda a, pol: 'self.vtype' in a and "'B'" in a and "'I'" in a and pol is False)),
+            on_state(lambda st: holds(st, "self.vtype == 'B'", False) and holds(st, "self.vtype == 'I'", False))),
            ('dependency already declared (self.rand_adapt[..].any())', any_guard('self.rand_adapt[')),
            ('model already formulated (var_ev_list is not None)', none_guard('var_ev_list'))])
 
